@@ -76,7 +76,7 @@ func targetMethod(r *rand.Rand, p *synth.Project, withBody, withForm bool) synth
 	return m
 }
 
-var PerturbationIDs = []string{"P0", "P1", "P2", "P3", "P3b", "P3c", "P22", "P22d", "P15d", "P16d", "P18d", "P6d", "PX1", "PX2", "PX3", "PX4", "PX5", "PE1", "PE2", "PE3", "PS1", "PS2", "PS3", "PS0", "PM1", "P4", "P5", "P6", "P7", "P8q", "P8h", "P8b", "P8f", "P9", "P10", "P11s", "P11m", "P11t", "P12", "P13a", "P13b", "P14a", "P14b", "P15", "P16", "P17", "P18", "P20", "P21", "PC1", "PC2", "PC3", "PC4"}
+var PerturbationIDs = []string{"P0", "P1", "P2", "P3", "P3b", "P3c", "P22", "P22d", "P15d", "P16d", "P18d", "P6d", "PX1", "PX2", "PX3", "PX4", "PX5", "PE1", "PE2", "PE3", "PS1", "PS2", "PS3", "PS0", "PM1", "P4", "P5", "P6", "P7", "P8q", "P8h", "P8b", "P8f", "P9", "P10", "P11s", "P11m", "P11t", "P12", "P13a", "P13b", "P14a", "P14b", "P15", "P16", "P17", "P18", "P20", "P21", "PC1", "PC2", "PC3", "PC4", "PK1"}
 
 func paramIdx(m *synth.Method, name string) int {
 	for i, p := range m.Params {
@@ -316,7 +316,13 @@ func ApplyPerturbation(p *synth.Project, id string, r *rand.Rand) *Perturbation 
 		pt.Diags = []DiagExpect{{Code: "linker-unreferenced-parameter", Severity: sevErr, Anchor: key + "/param/" + name, Mode: "exact"}}
 	case "P9":
 		pt.Rule, pt.Expect = "a second @Body parameter", "reject"
-		m.Params = append(m.Params, synth.Param{GoName: "payload2", Type: synth.Slice(synth.Prim("string")), In: "body"})
+		p2 := synth.Param{GoName: "payload2", Type: synth.Slice(synth.Prim("string")), In: "body"}
+		if i := paramIdx(&m, "payload"); i >= 0 && r.Intn(2) == 0 {
+			// directly behind the first one
+			m.Params = append(m.Params[:i+1], append([]synth.Param{p2}, m.Params[i+1:]...)...)
+		} else {
+			m.Params = append(m.Params, p2)
+		}
 	case "P10":
 		pt.Rule, pt.Expect = "@Body together with @FormField", "reject"
 		m.Params = append(m.Params, synth.Param{GoName: "field9", Type: synth.Prim("string"), In: "form"})
@@ -434,6 +440,29 @@ func ApplyPerturbation(p *synth.Project, id string, r *rand.Rand) *Perturbation 
 		}
 		m.ErrType = "TargetErr"
 		m.ErrPtr = r.Intn(2) == 0
+	case "PK1":
+		// the user's own <module>/pkg/context.Context is not Go's context.Context: it needs an annotation like any other parameter
+		pt.Rule, pt.Expect = "an unreferenced parameter whose type is the user's own pkg/context.Context (a plain struct)", "reject"
+		if p.Pkg("hctx") == nil {
+			p.Pkgs = append(p.Pkgs, synth.Pkg{Key: "hctx", Dir: "pkg/context", Name: "context"})
+		}
+		if p.Struct("hctx", "Context") == nil {
+			p.Structs = append([]synth.Struct{{Name: "Context", Pkg: "hctx", Fields: []synth.Field{{GoName: "Tenant", Type: synth.Prim("string"), JSONName: "tenant"}}}}, p.Structs...)
+		}
+		// one file cannot import both packages named context
+		for ci := range p.Controllers {
+			for mi := range p.Controllers[ci].Methods {
+				var kept []synth.Param
+				for _, pr := range p.Controllers[ci].Methods[mi].Params {
+					if pr.In != "ctx" {
+						kept = append(kept, pr)
+					}
+				}
+				p.Controllers[ci].Methods[mi].Params = kept
+			}
+		}
+		m.Params = append(m.Params, synth.Param{GoName: "scope", Type: synth.Named("hctx", "Context"), In: "query"})
+		m.DropAnn = append(m.DropAnn, "Query:scope")
 	default:
 		pt.Applied = false
 	}
